@@ -128,17 +128,14 @@ for ty, key, sk in (("BOOLVECTOR", "nbv", "nb"), ("INTVECTOR", "niv", "ni"), ("F
     add(ty + ".LENGTH", "C09", {key: 1})
     add(ty + ".ONES", "C09", {"ni": 1}, top_int=[-1, 0, 1, 2, 3])
     add(ty + ".ZEROS", "C09", {"ni": 1}, top_int=[-1, 0, 1, 2, 3])
-    if ty == "INTVECTOR":
-        add(ty + ".ROTATE", "C09", {"ni": 1, key: 1})
-    else:
-        add(ty + ".ROTATE", "C09", {sk: 1, key: 1})
-    add(ty + ".SORT*ASC", "C09", {key: 1})
-    add(ty + ".SORT*DESC", "C09", {key: 1})
+    # ROTATE, SORT*ASC, SORT*DESC: std's rotate / sort on a vector that lives inside the stack's heap buffer do
+    # not finish under CBMC (600 s; the same calls on a local 2-element Vec take 0.5 s): NOT covered.
+    # Their reference models stay in spec.rs for a future engine.
 for op in ("AND", "OR"):
     add("BOOLVECTOR." + op, "C09", {"ni": 1, "nbv": 2})
 add("BOOLVECTOR.NOT", "C09", {"ni": 1, "nbv": 1})
 add("BOOLVECTOR.COUNT", "C09", {"nbv": 1})
-add("BOOLVECTOR.RAND", "C13", {"ni": 1, "nf": 1}, top_int=[-1, 0, 1, 2, 3])
+add("BOOLVECTOR.RAND", "C13", {"ni": 1, "nf": 1}, top_int=[-1, 0, 1, 2, 3], no_cost=True)
 for op in ("+", "-"):
     add("INTVECTOR." + op, "C09", {"ni": 1, "niv": 2})
 for op in ("+", "-"):
@@ -147,7 +144,7 @@ add("FLOATVECTOR.*", "C09", {"ni": 1, "nfv": 2}, None, "pre_fvec_short_mantissa"
 add("FLOATVECTOR./", "C09", {"ni": 1, "nfv": 2})
 add("INTVECTOR.APPEND", "C09", {"ni": 1, "niv": 1})
 add("FLOATVECTOR.APPEND", "C09", {"nf": 1, "nfv": 1})
-add("INTVECTOR.BOOLINDEX", "C09", {"nbv": 1})
+# INTVECTOR.BOOLINDEX builds a result vector of symbolic length by reallocation: out of memory under CBMC, NOT covered
 add("INTVECTOR.CONTAINS", "C09", {"ni": 1, "niv": 1})
 add("INTVECTOR.EMPTY", "C09", {})
 add("FLOATVECTOR.EMPTY", "C09", {})
@@ -164,7 +161,8 @@ add("FLOATVECTOR.*SCALAR", "C09", {"nf": 1, "nfv": 1}, None, "pre_fvec_short_man
 add("FLOATVECTOR.SINE", "C09", {"ni": 1, "nf": 3}, top_int=[0, 1, 2, 3])
 
 # ---- LIST (C19 / C20) -----------------------------------------------------------------------------
-add("LIST.NEIGHBOR*IDS", "C20", {"ni": 3, "nf": 1}, "pre_top3_int_small", no_cost=True)
+# LIST.NEIGHBOR*IDS: hand-written harnesses in c20_topology.rs (size and dimension operands concrete, index and
+# radius symbolic); the generic harness with three symbolic operands does not finish.
 
 # Item-touching instructions: outside every claim (clone / drop of Item, HashMap insert, fmt, process)
 ITEM_TOUCHING_REASON = "clones/drops an Item, inserts into a HashMap, formats text or spawns a process: out of CBMC's reach (DESIGN.md section 2)"
